@@ -14,8 +14,9 @@ GUARD = "AIOSWITCHER_VERIF"
 
 
 VARIANT = os.environ.get("VERIF_VARIANT", "")
-# "hostile host": the same checks in an interpreter that strips assert statements (python -O) and runs under the C locale
-# without UTF-8 mode (file-system encoding ASCII).  Nothing in the 19 statements depends on either.
+# "hostile host": the same checks in an interpreter that strips assert statements (python -O), runs under the C locale
+# without UTF-8 mode (file-system encoding ASCII) and has debug logging switched on for the library's logger.
+# Nothing in the 19 statements depends on any of the three.
 VARIANT_ENV = {"hostile-host": {"PYTHONOPTIMIZE": "1", "LC_ALL": "C", "LANG": "C", "PYTHONUTF8": "0",
                                 "PYTHONCOERCECLOCALE": "0", "PYTHONIOENCODING": "utf-8"}}
 
@@ -52,6 +53,17 @@ def boot():
     lg = logging.getLogger("aioswitcher")
     lg.addHandler(logging.NullHandler())
     lg.propagate = False
+    if VARIANT == "hostile-host":
+        # somebody is troubleshooting: debug logging is on, so every `if logger.isEnabledFor(DEBUG)` branch and every
+        # lazily formatted debug record is live
+        class _Sink(logging.Handler):
+            def emit(self, record):
+                try:
+                    record.getMessage()
+                except Exception:
+                    pass
+        lg.addHandler(_Sink(level=logging.DEBUG))
+        lg.setLevel(logging.DEBUG)
     try:
         import hypothesis  # noqa
         import time_machine  # noqa
